@@ -411,7 +411,26 @@ def r13_4(ctx):
         rets = {p.end[1] for p in s.paths(start=lp.exit) if p.end[0] == "ret"}
         r.ob("fold:returns-list", V is not None and rets <= {("param", V), ("local", V)} and bool(rets), f.site, "returns %s" % [show(x, f) for x in rets])
 
-    ctx.run_rule("R13.4", "FilterHeaderAction::filter folds in forward order", body, floor=4)
+        # the chain is built with one action per filter, in the order given: nothing decides whether a
+        # filter is kept except that its operation is known
+        g = F.fn("filter::filter_header::FilterHeaderAction::new")
+        r.analysed(g)
+        lps = for_loops(g)
+        okb = len(lps) == 1 and lps[0].source in (("param", 1), ("call", "core::slice::iter", (("param", 1),)), ("call", "std::vec::Vec::iter", (("param", 1),)))
+        detail = "%d loops" % len(lps)
+        if okb:
+            kinds = set()
+            for p in lps[0].iteration_paths(Sym(g, copies=True)):
+                made = [e for e in p.events if e[0] == "call" and e[1] == "filter::header_action::create_header_action"]
+                pushed = [e for e in p.events if e[0] == "call" and e[1] == "std::vec::Vec::push"]
+                other = [a for a, v in p.conds if not (a[0] == "disc" and made and a[1] == made[0][3]) and not (a[0] == "call" and a[1].endswith("is_some") and made and a[2][0] == made[0][3])]
+                res = [v for a, v in p.conds if made and ((a[0] == "disc" and a[1] == made[0][3]) or (a[0] == "call" and a[2] and a[2][0] == made[0][3]))]
+                known = res and res[0] in ("Some", 1)
+                kinds.add((len(made) == 1 and not other and bool(pushed) == bool(known) and (not pushed or mentions(pushed[0][2][1], lambda x: x == made[0][3])) and p.end[0] == "stop"))
+            okb = kinds == {True}
+            detail = "each iteration builds the action of its filter and keeps it iff the operation is known"
+        r.ob("chain:one-action-per-filter", okb, g.site, detail if okb else "FilterHeaderAction::new does not keep exactly the filters whose operation is known, in order (%s)" % detail)
+    ctx.run_rule("R13.4", "FilterHeaderAction::filter folds in forward order", body, floor=5)
 
 
 def r13_5(ctx):
